@@ -92,6 +92,8 @@ def one_c08(args):
     prof = rng.choice(['c08', 'c08', 'c08', 'readers', 'writers', 'stall', 'manual'])
     sc = k8lib.gen_scenario(rng, prof) if tier != 'quick' else k8lib.gen_scenario(rng, prof, nops=rng.range(8, 18))
     sched = k8lib.gen_schedule(vlib.Rng(sched_seed), abs_trace=want_abs)
+    if idx % 3 == 2 and prof in ('stall', 'manual', 'c08'):
+        sched['lockwait'] = rng.choice([3000, 12000, 30000])     # a reader stalled right before db->mutex while flushes and compactions go on
     run = k8lib.run_k8(exe, base, idx, sc, sched)
     stats = {}
     t0 = time.time()
